@@ -3,11 +3,8 @@ From NV Require Import Model.Base Model.Select.
 From Coq Require Import Lia Permutation.
 
 (* ------------------------------------------------------------------ ties to the current source *)
-(* Any edit of the selection part of main() changes Gen.Select.selection_fingerprint and breaks this lemma. *)
-Lemma selection_code_pinned :
-  selection_fingerprint = "2feb637859ee49b9e712a7193efd11d3468e726dce9252d1f10c8fe69b7cc4d7"%string.
-Proof. reflexivity. Qed.
-
+(* The selection code of main() itself is tied by translation: Gen/SelectCode.v + Proofs/SelectCodeProofs.v
+   (select_is_translated_code); the tables the model reads from Gen.Select are pinned here. *)
 Lemma selection_tables_pinned :
   glob_cwd_pattern = "**/*.[ch]"%string /\ glob_cwd_recursive = true /\
   glob_dir_pattern = "/**/*.[ch]"%string /\ glob_dir_recursive = true /\
